@@ -1,5 +1,6 @@
 """C27: top-level names (and, one level down, class-body names) that the bundled typeshed stubs define for a list of stdlib
-modules, across ALL `sys.platform` / `sys.version_info` branches (both arms of every `if`, `try`, `with` are walked).
+modules, across ALL `sys.platform` branches and every `sys.version_info` branch reachable for a supported version
+(3.7-3.13); both arms of every other `if`, `try`, `with` are walked.
 usage : python c27_typeshed.py <typeshed stdlib dir>      stdin: JSON {"modules": [M...]}
 stdout: JSON {"modules": {M: {"stub": relative path | null, "names": [...], "classes": {C: [...]}}}}
 Star imports are expanded from the imported stub (its `__all__` if it is a literal list, else its public names);
@@ -38,6 +39,53 @@ def resolve_from(mod, node):
     base = parts if is_pkg else parts[:-1]
     base = base[:len(base) - (node.level - 1)] if node.level > 1 else base
     return ".".join(base + ([node.module] if node.module else []))
+
+
+SUPPORTED = [(3, m) for m in range(7, 14)]     # the property: "in at least one supported Python version" (3.7-3.13)
+
+
+def _ver_test(test, v):
+    """value of a `sys.version_info` test for version v; None when the test is not (only) about the version"""
+    if isinstance(test, ast.Compare) and len(test.ops) == 1 and len(test.comparators) == 1:
+        l, r = test.left, test.comparators[0]
+        def is_vi(n):
+            return isinstance(n, ast.Attribute) and n.attr == "version_info" and isinstance(n.value, ast.Name) and n.value.id == "sys"
+        def tup(n):
+            if isinstance(n, ast.Tuple) and all(isinstance(e, ast.Constant) and isinstance(e.value, int) for e in n.elts):
+                return tuple(e.value for e in n.elts)
+            return None
+        if is_vi(l) and tup(r) is not None:
+            a, b = v[:len(tup(r))], tup(r)[:2] if len(tup(r)) > 2 else tup(r)
+            a = v[:len(b)]
+        elif is_vi(r) and tup(l) is not None:
+            return _ver_test(ast.Compare(left=r, ops=[{ast.Lt: ast.Gt, ast.Gt: ast.Lt, ast.LtE: ast.GtE, ast.GtE: ast.LtE}.get(type(test.ops[0]), type(test.ops[0]))()], comparators=[l]), v)
+        else:
+            return None
+        op = test.ops[0]
+        if isinstance(op, ast.GtE): return a >= b
+        if isinstance(op, ast.Gt): return a > b
+        if isinstance(op, ast.LtE): return a <= b
+        if isinstance(op, ast.Lt): return a < b
+        if isinstance(op, ast.Eq): return a == b
+        if isinstance(op, ast.NotEq): return a != b
+        return None
+    if isinstance(test, ast.BoolOp):
+        vals = [_ver_test(t, v) for t in test.values]
+        if isinstance(test.op, ast.And):
+            if any(x is False for x in vals): return False
+            return True if all(x is True for x in vals) else None
+        if any(x is True for x in vals): return True
+        return False if all(x is False for x in vals) else None
+    if isinstance(test, ast.UnaryOp) and isinstance(test.op, ast.Not):
+        x = _ver_test(test.operand, v)
+        return None if x is None else (not x)
+    return None
+
+
+def branch_reachable(test):
+    """(body reachable, orelse reachable) for some supported version; platform tests and anything unknown count as both"""
+    vals = [_ver_test(test, v) for v in SUPPORTED]
+    return any(x is not False for x in vals), any(x is not True for x in vals)
 
 
 def walk(mod, body, names, classes, all_list, private):
@@ -90,8 +138,13 @@ def walk(mod, body, names, classes, all_list, private):
                 else:
                     private.add(a.asname or a.name)   # plain `from m import y`: not re-exported by a stub
         elif isinstance(st, ast.If):
-            walk(mod, st.body, names, classes, all_list, private)
-            walk(mod, st.orelse, names, classes, all_list, private)
+            # `sys.version_info` guards are evaluated over the supported versions 3.7-3.13 (a name that exists only from 3.14 on,
+            # or only before 3.7, exists in no supported version); platform guards and anything else: both arms
+            tb, fb = branch_reachable(st.test)
+            if tb:
+                walk(mod, st.body, names, classes, all_list, private)
+            if fb:
+                walk(mod, st.orelse, names, classes, all_list, private)
         elif isinstance(st, ast.Try):
             for b in (st.body, st.orelse, st.finalbody):
                 walk(mod, b, names, classes, all_list, private)
